@@ -111,7 +111,8 @@ func (m dtModel) container(key string, typ byte) (v *dtVal, wrong bool, unjudged
 	}
 	if cur.typ != typ {
 		if cur.typ == datatype.String && cur.expired {
-			return nil, false, true // other-type command on an expired string: not pinned by the statement
+			// "expired means absent": the command sees no key and creates its own container
+			return &dtVal{typ: typ, hash: map[string]string{}, set: map[string]bool{}, zset: map[string]float64{}}, false, false
 		}
 		if cur.typ != datatype.String && cur.size() == 0 {
 			return nil, false, true // emptied container of another type: Redis would have removed it, the code keeps it
@@ -417,7 +418,10 @@ func (r *dtRun) modelBattery() string {
 				return "absent", nil
 			}
 			if cur.typ != typ {
-				if (cur.typ == datatype.String && cur.expired) || (cur.typ != datatype.String && cur.size() == 0) {
+				if cur.typ == datatype.String && cur.expired {
+					return "absent", nil // expired means absent, for every command
+				}
+				if cur.typ != datatype.String && cur.size() == 0 {
 					return "?", nil
 				}
 				return "WRONGTYPE", nil
@@ -437,7 +441,7 @@ func (r *dtRun) modelBattery() string {
 		case cur == nil:
 			fmt.Fprintf(&b, "type %s=absent;", k)
 		case cur.typ == datatype.String && cur.expired:
-			fmt.Fprintf(&b, "type %s=?;", k)
+			fmt.Fprintf(&b, "type %s=absent;", k)
 		default:
 			fmt.Fprintf(&b, "type %s=%d;", k, cur.typ)
 		}
@@ -626,7 +630,7 @@ func init() {
 		Rule:   "all command sequences within (depth, deviation bound) over 25 mutating commands on two keys (all five types, deletion, re-creation with another type, clock advance past the TTL, restart); every reply is compared with a data-type model, and after every step a probe battery (every read command on every key/field/member) is compared with the model; across restart the battery must be unchanged. non-trivial = at least two different types were live during the sequence",
 		Assumptions: []string{
 			"the clock (time.Now in package datatype) is owned by the harness: strictly monotone, advanced by 2 s by the Advance symbol; TTL is 1 s",
-			"not judged (sequence pruned there): other-type commands on an expired string, and on a container of another type that was emptied but not deleted (Redis removes it, the code keeps its metadata)",
+			"not judged (sequence pruned there): commands of one type on a container of another type that was emptied but not deleted (Redis removes it, the code keeps its metadata). An expired string is absent for EVERY command",
 			"replies for a missing field/member are compared by classification (absent/present) only",
 		},
 		Tasks: c19Tasks,
